@@ -5,13 +5,15 @@ namespace MxModel.IOSpec
 /-- the part of the state the spec invariants are about -/
 def sp (st : St) : List Spec × Nat := (st.specs, st.nextSid)
 
-theorem strans_of_eq {a b : List Spec × Nat} (h : a = b) : STrans a b := h ▸ .refl a
+variable {Q : Nat → String → Prop}
 
-theorem strans_delSpec (st : St) (σ : Spec) : STrans (sp st) (sp (delSpec st σ)) :=
+theorem strans_of_eq {a b : List Spec × Nat} (h : a = b) : STrans Q a b := h ▸ .refl a
+
+theorem strans_delSpec (st : St) (σ : Spec) : STrans Q (sp st) (sp (delSpec st σ)) :=
   .del st.specs st.nextSid σ.sid
 
 theorem strans_dropIfEmpty (st : St) (m : Nat) (v : Val) (l : List Ref) :
-    STrans (sp st) (sp (dropIfEmpty st m v l)) := by
+    STrans Q (sp st) (sp (dropIfEmpty st m v l)) := by
   unfold dropIfEmpty
   split
   · split
@@ -20,7 +22,7 @@ theorem strans_dropIfEmpty (st : St) (m : Nat) (v : Val) (l : List Ref) :
   · exact .refl _
 
 theorem strans_changeDrop (st : St) (m : Nat) (prev : Ref) :
-    STrans (sp st) (sp (changeDrop st m prev)) := by
+    STrans Q (sp st) (sp (changeDrop st m prev)) := by
   unfold changeDrop
   split
   · exact .refl _
@@ -30,7 +32,7 @@ theorem sp_rmNewRef (st : St) (o : Owner) (n : String) (v : Val) : sp (rmNewRef 
   unfold rmNewRef; split <;> rfl
 
 theorem strans_rmDelRef (st : St) (o : Owner) (n : String) :
-    STrans (sp st) (sp (rmDelRef st o n).1) := by
+    STrans Q (sp st) (sp (rmDelRef st o n).1) := by
   unfold rmDelRef
   split
   · exact .refl _
@@ -44,7 +46,7 @@ theorem strans_rmDelRef (st : St) (o : Owner) (n : String) :
         · exact .refl _
 
 theorem strans_rmChangeRef (st : St) (o : Owner) (n : String) (v : Val) :
-    STrans (sp st) (sp (rmChangeRef st o n v).1) := by
+    STrans Q (sp st) (sp (rmChangeRef st o n v).1) := by
   unfold rmChangeRef
   split
   · exact .refl _
@@ -64,7 +66,7 @@ theorem sp_updLoop (m : Nat) (old new : Val) (todo : List Ref) :
     · rw [ih]; rfl
 
 theorem strans_rmUpdateValue (st : St) (m : Nat) (old new : Val) :
-    STrans (sp st) (sp (rmUpdateValue st m old new).1) := by
+    STrans Q (sp st) (sp (rmUpdateValue st m old new).1) := by
   unfold rmUpdateValue
   split
   · exact .refl _
@@ -78,7 +80,7 @@ theorem strans_rmUpdateValue (st : St) (m : Nat) (old new : Val) :
       · rw [sp_updLoop]; exact .refl _
 
 theorem strans_setAttr (kw : List String) (st : St) (o : Owner) (n : String) (v : Val) :
-    STrans (sp st) (sp (setAttr kw st o n v).1) := by
+    STrans Q (sp st) (sp (setAttr kw st o n v).1) := by
   unfold setAttr
   split
   · split
@@ -98,7 +100,7 @@ theorem strans_setAttr (kw : List String) (st : St) (o : Owner) (n : String) (v 
           · exact strans_of_eq (sp_rmNewRef st o n v).symm
 
 theorem strans_delAttr (st : St) (o : Owner) (n : String) :
-    STrans (sp st) (sp (delAttr st o n).1) := by
+    STrans Q (sp st) (sp (delAttr st o n).1) := by
   unfold delAttr
   split
   · split
@@ -113,26 +115,26 @@ theorem strans_delAttr (st : St) (o : Owner) (n : String) :
       · split <;> exact .refl _
 
 theorem strans_newSpec (st : St) (m : Nat) (path : String) (csv : Bool) (sheet : Option String)
-    (data : Val) : STrans (sp st) (sp (newSpec st m path csv sheet data).1) := by
+    (data : Val) (hq : Q m path) : STrans Q (sp st) (sp (newSpec st m path csv sheet data).1) := by
   unfold newSpec
   split
   · exact .refl _
   · split
     · rename_i hc
-      exact .add st.specs st.nextSid m path csv sheet data hc
+      exact .add st.specs st.nextSid m path csv sheet data hc hq
     · exact .refl _
 
 theorem strans_newPandas (kw : List String) (st : St) (o : Owner) (n path : String) (csv : Bool)
-    (sheet : Option String) (data : Val) :
-    STrans (sp st) (sp (newPandas kw st o n path csv sheet data).1) := by
+    (sheet : Option String) (data : Val) (hq : Q o.model path) :
+    STrans Q (sp st) (sp (newPandas kw st o n path csv sheet data).1) := by
   unfold newPandas
-  have h1 := strans_newSpec st o.model path csv sheet data
+  have h1 := strans_newSpec st o.model path csv sheet data hq
   split
   · rename_i st1 e heq
     rw [heq] at h1; exact h1
   · rename_i st1 σ heq
     rw [heq] at h1
-    have h2 := strans_setAttr kw st1 o n data
+    have h2 := strans_setAttr (Q := Q) kw st1 o n data
     split
     · rename_i st2 heq2
       rw [heq2] at h2; exact .trans h1 h2
@@ -142,32 +144,32 @@ theorem strans_newPandas (kw : List String) (st : St) (o : Owner) (n path : Stri
       · exact .trans h1 (.trans h2 (strans_delSpec st2 σ))
       · exact .trans h1 h2
 
-theorem strans_foldl_delSpec (l : List Spec) : ∀ st : St, STrans (sp st) (sp (l.foldl delSpec st)) := by
+theorem strans_foldl_delSpec (l : List Spec) : ∀ st : St, STrans Q (sp st) (sp (l.foldl delSpec st)) := by
   induction l with
   | nil => intro st; exact .refl _
   | cons σ rest ih => intro st; exact .trans (strans_delSpec st σ) (ih _)
 
-theorem strans_rmDelAllSpec (st : St) (m : Nat) : STrans (sp st) (sp (rmDelAllSpec st m).1) := by
+theorem strans_rmDelAllSpec (st : St) (m : Nat) : STrans Q (sp st) (sp (rmDelAllSpec st m).1) := by
   unfold rmDelAllSpec
   split
   · exact .refl _
   · exact strans_foldl_delSpec _ st
 
-theorem strans_closeModel (st : St) (m : Nat) : STrans (sp st) (sp (closeModel st m).1) := by
+theorem strans_closeModel (st : St) (m : Nat) : STrans Q (sp st) (sp (closeModel st m).1) := by
   unfold closeModel
-  have h := strans_rmDelAllSpec st m
+  have h := strans_rmDelAllSpec (Q := Q) st m
   split
   · rename_i st1 e heq; rw [heq] at h; exact h
   · rename_i st1 heq; rw [heq] at h; exact h
 
-theorem strans_delSpecOf (st : St) (m : Nat) (v : Val) : STrans (sp st) (sp (delSpecOf st m v).1) := by
+theorem strans_delSpecOf (st : St) (m : Nat) (v : Val) : STrans Q (sp st) (sp (delSpecOf st m v).1) := by
   unfold delSpecOf
   split
   · exact .refl _
   · exact strans_delSpec st _
 
 theorem strans_setSheet (st : St) (m : Nat) (v : Val) (sh : Option String) :
-    STrans (sp st) (sp (setSheet st m v sh).1) := by
+    STrans Q (sp st) (sp (setSheet st m v sh).1) := by
   unfold setSheet
   split
   · exact .refl _
@@ -177,8 +179,31 @@ theorem strans_setSheet (st : St) (m : Nat) (v : Val) (sh : Option String) :
       exact .setSheet st.specs st.nextSid σ sh (getSpec_some hσ).1 hf
     · exact .refl _
 
+theorem strans_setPath (st : St) (m : Nat) (v : Val) (path : String)
+    (hq : ∀ σ, getSpecFromValue st m v = some σ → Q σ.group path) :
+    STrans Q (sp st) (sp (setPath st m v path).1) := by
+  unfold setPath
+  split
+  · exact .refl _
+  · rename_i σ hσ
+    split
+    · exact .refl _
+    · rename_i hne
+      split
+      · rename_i hfree
+        exact .setPath st.specs st.nextSid σ.group σ.path path hne (by simpa using hfree) (hq σ hσ)
+      · exact .refl _
+
+def isSetPath : Op → Bool
+  | .setPath _ _ _ => true
+  | _ => false
+
+/-- the io key an operation claims; the path setter claims one only for a model that has a spec -/
+def OpQ (st : St) (op : Op) (m : Nat) (p : String) : Prop :=
+  opKey op = some (m, p) ∧ (isSetPath op = true → ∃ σ ∈ st.specs, σ.group = m)
+
 theorem strans_step (kw : List String) (st : St) (op : Op) :
-    STrans (sp st) (sp (step kw st op)) := by
+    STrans (OpQ st op) (sp st) (sp (step kw st op)) := by
   unfold step stepR
   cases op with
   | newModel m => simp only; split <;> exact .refl _
@@ -187,7 +212,7 @@ theorem strans_step (kw : List String) (st : St) (op : Op) :
   | newPandas o name path csv sheet data =>
     simp only; split
     · exact .refl _
-    · exact strans_newPandas kw st o name path csv sheet data
+    · exact strans_newPandas kw st o name (pathKey path) csv sheet data ⟨rfl, fun h => by cases h⟩
   | bind o name v =>
     simp only; split
     · exact .refl _
@@ -204,6 +229,12 @@ theorem strans_step (kw : List String) (st : St) (op : Op) :
     simp only; split
     · exact .refl _
     · exact strans_setSheet st m v sh
+  | setPath m v path =>
+    simp only; split
+    · exact .refl _
+    · refine strans_setPath st m v (pathKey path) (fun σ hσ => ?_)
+      obtain ⟨h1, h2, _⟩ := getSpec_some hσ
+      rw [h2]; exact ⟨rfl, fun _ => ⟨σ, h1, h2⟩⟩
   | delSpec m v =>
     simp only; split
     · exact .refl _
@@ -211,6 +242,8 @@ theorem strans_step (kw : List String) (st : St) (op : Op) :
   | close m =>
     simp only; split
     · exact .refl _
-    · exact strans_closeModel st m
+    · split
+      · exact .refl _
+      · exact strans_closeModel st m
 
 end MxModel.IOSpec
